@@ -3,6 +3,7 @@ package main
 // Calls: builtins, inlining, contract summaries, interface dispatch, models of library functions.
 
 import (
+	"os"
 	"fmt"
 	"go/token"
 	"go/types"
@@ -497,6 +498,9 @@ func (e *Exec) primitive(st *State, fr *Frame, fn *ssa.Function, args []Value, p
 	case "prim_sameslice":
 		a, b := args[0].(*SliceV), args[1].(*SliceV)
 		return one(st, And(Eq(a.Len, b.Len), Or(Eq(a.Len, BVConst(0, 64)), And(Eq(a.Arr, b.Arr), Eq(a.Off, b.Off))))), true
+	case "prim_disjoint": // the two slices do not share memory (different backing arrays, or one of them is empty)
+		a, b := args[0].(*SliceV), args[1].(*SliceV)
+		return one(st, Or(Eq(a.Cap, BVConst(0, 64)), Eq(b.Cap, BVConst(0, 64)), Not(Eq(a.Arr, b.Arr)))), true
 	case "prim_eqbytes":
 		a, b := args[0].(*SliceV), args[1].(*SliceV)
 		return one(st, e.sliceEq(st, a, b)), true
@@ -667,15 +671,19 @@ func (e *Exec) primMapAll2(st *State, fr *Frame, m *MapV, f *FuncV) *Term {
 // selectPatterns finds a select term whose index is exactly the bound variable (usable as a trigger).
 func selectPatterns(t *Term, b *Term) []*Term {
 	seen := map[int]bool{}
-	var best *Term
+	var bare, other []*Term
 	var walk func(t *Term)
 	walk = func(t *Term) {
-		if seen[t.ID] || !t.hasBound || best != nil {
+		if seen[t.ID] || !t.hasBound {
 			return
 		}
 		seen[t.ID] = true
 		if t.Op == "select" && simplePattern(t, b) {
-			best = t
+			if t.Args[1] == b && !t.Args[0].hasBound {
+				bare = append(bare, t) // the position itself is the index: matches whatever term stands at that position
+			} else {
+				other = append(other, t)
+			}
 			return
 		}
 		for _, a := range t.Args {
@@ -683,8 +691,14 @@ func selectPatterns(t *Term, b *Term) []*Term {
 		}
 	}
 	walk(t)
-	if best != nil {
-		return []*Term{best}
+	if len(bare) > 0 {
+		if len(bare) > 4 {
+			bare = bare[:4]
+		}
+		return bare
+	}
+	if len(other) > 0 {
+		return other[:1]
 	}
 	return nil
 }
@@ -900,6 +914,22 @@ func init() {
 			return one(st)
 		}
 	}
+	// websocket.maskBytes (unsafe word-at-a-time XOR in the library): TRUSTED model, the function RFC 6455 5.3 defines:
+	// octet i of the buffer becomes octet i XOR key[(pos+i) mod 4]; the result is the next key position.
+	models["github.com/ossrs/go-oryx-lib/websocket.maskBytes"] = func(e *Exec, st *State, fr *Frame, fn *ssa.Function, args []Value, pos token.Pos) []Outcome {
+		e.note("trusted: websocket.maskBytes (unsafe code) is modelled as the RFC 6455 5.3 masking function, not verified")
+		key := args[0].(*ArrV)
+		kp := SignExt(args[1].(*Term), 64)
+		b := args[2].(*SliceV)
+		e.frameCheck(st, fr, Loc{Key: elemKey(b.Elem), Idx: []*Term{b.Arr}}, pos)
+		c := comp{"", BV(8)}
+		old := st.arrayOf(b.Elem, c, b.Arr)
+		i := BoundVar("i", BV(64))
+		rel := BVSub(i, b.Off)
+		body := Ite(BVUlt(rel, b.Len), BVXor(Select(old, i), Select(key.Data, BVAnd(BVAdd(kp, rel), BVConst(3, 64)))), Select(old, i))
+		st.setArrayOf(b.Elem, c, b.Arr, intern(&Term{Op: "lambda", Sort: old.Sort, Args: []*Term{body}, Bound: []*Term{i}}))
+		return one(st, BVAnd(BVAdd(kp, b.Len), BVConst(3, 64)))
+	}
 	// bytes.Buffer: ghost field $buf is the unread content (the library never reads from its buffers before Bytes())
 	bufLoc := func(e *Exec, p *PtrV) (Loc, *types.Slice) {
 		l := e.locOf(p)
@@ -1036,6 +1066,10 @@ func nilIface() *IfaceV { return &IfaceV{Tid: IntConst(0), Ref: IntConst(0)} }
 // fresh arrays of the current state so that their contents stay the old ones.
 func (e *Exec) callOldSpec(st *State, fr *Frame, fn *ssa.Function, args []Value, pos token.Pos) []Outcome {
 	old := e.oldState.Clone()
+	if os.Getenv("GOVC_DEBUG") == "5" {
+		h := old.heaps["A:uint8"]
+		fmt.Fprintf(os.Stderr, "OLDSPEC %s in %s: A:uint8=%s discovery=%d\n", fn.Name(), e.curFn, showTerm(h, 1), e.discovery)
+	}
 	old.pc = append([]*Term(nil), st.pc...)
 	old.facts = append([]*Term(nil), st.facts...)
 	old.base, old.allocN = st.base, st.allocN
